@@ -189,11 +189,12 @@ Definition handle_expire (argv : list string) : prog reply :=
 Definition handle_expireat (argv : list string) : prog reply :=
   handle_expire_gen (fun _ n => if String.eqb (lower (arg argv 0)) "pexpireat" then n else n * 1000) argv.
 
-(** INCR, DECR, INCRBY, DECRBY: [delta] is what is added (exact); a result outside int64 is refused. *)
+(** INCR, DECR, INCRBY, DECRBY: [delta] is what is added (exact); a result outside int64 is refused.
+    The counter is stored as an integer ([int(newValue)]), the type SET gives the same number. *)
 Definition counter_step (key : string) (delta : Z) : prog reply :=
   GetValues [key] (fun vals =>
   let store (n : Z) :=
-    if in_int64 n then SetValues [(key, VScal (SStr (show_Z n)))] (fun ok => if ok then Ret (RInt n) else Ret RErr)
+    if in_int64 n then SetValues [(key, VScal (SInt n))] (fun ok => if ok then Ret (RInt n) else Ret RErr)
     else Ret RErr in
   match vals key with
   | None => store delta
@@ -220,16 +221,17 @@ Definition handle_incrbyfloat (argv : list string) : prog reply :=
   | Some inc =>
       let key := arg argv 1 in
       GetValues [key] (fun vals =>
-      let store (q : Q) :=
-        match show_decimal q with
-        | Some t => SetValues [(key, VScal (SStr t))] (fun ok => if ok then Ret (RBulk t) else Ret RErr)
+      (* the sum is printed with %g and stored through [AdaptValue], as SET stores the same text *)
+      let store (f : fl) :=
+        match fl_text f with
+        | Some t => SetValues [(key, VScal (adapt_value t))] (fun ok => if ok then Ret (RBulk t) else Ret RErr)
         | None => Ret RPanic (* outside the modelled float text: excluded from generation *)
         end in
       match vals key with
-      | None => store inc
-      | Some (VScal (SStr s)) => match parse_float_arg s with Some c => store (Qred (c + inc)) | None => Ret RErr end
-      | Some (VScal (SFloat (FFin c))) => store (Qred (c + inc))
-      | Some (VScal (SInt c)) => store (Qred (inject_Z c + inc))
+      | None => store (FFin inc)
+      | Some (VScal (SStr s)) => match parse_float_arg s with Some c => store (FFin (Qred (c + inc))) | None => Ret RErr end
+      | Some (VScal (SFloat c)) => store (fl_add c (FFin inc))
+      | Some (VScal (SInt c)) => store (FFin (Qred (inject_Z c + inc)))
       | Some _ => Ret RErr
       end)
   end.
@@ -242,8 +244,10 @@ Definition handle_rename (argv : list string) : prog reply :=
   | None => Ret RErr
   | Some v =>
       if String.eqb oldKey newKey then Ret ROk else
+      (* the deadline travels with the key *)
+      GetExpiry oldKey (fun dl =>
       SetValues [(newKey, v)] (fun ok =>
-      if negb ok then Ret RErr else DeleteKey oldKey (Ret ROk))
+      if negb ok then Ret RErr else SetExpiry newKey dl false (DeleteKey oldKey (Ret ROk))))
   end).
 
 Definition handle_flush (argv : list string) : prog reply :=
